@@ -31,8 +31,9 @@
                    "invalid format" (never collected)
 
    The decimal rendering / parsing of the expiry (fmt %d, strconv.ParseInt) is
-   a parameter [dec] / [undec] of every definition (trusted: [dec_ok]);
-   [dec10] / [undec10] are executable decimal versions used by the examples. *)
+   a parameter [dec] / [undec] of every definition ([dec_ok]); [dec10] /
+   [undec10] below are the real ones (strconv.FormatInt / ParseInt base 10, 64
+   bits), proved to meet it in Proofs10.v and compared with Go by suite [dec]. *)
 From Coq Require Import List ZArith Bool Lia.
 Import ListNotations.
 Open Scope Z_scope.
@@ -100,22 +101,95 @@ Definition gc_item (undec : str -> option Z) (v : variant4) (now : Z) (item : st
 Definition dec_ok (dec : Z -> str) (undec : str -> option Z) : Prop :=
   (forall e, undec (dec e) = Some e) /\ (forall e, cfree (dec e)).
 
-(* executable decimal, for the examples (non-negative: UnixNano of the mock /
-   real clock) *)
-Fixpoint digits (fuel : nat) (n : Z) (acc : str) : str :=
+(* ---- the REAL decimal rendering (extension 3): executable, proved [dec_ok]
+   in Proofs10.v, compared with Go's fmt %d / strconv by suite [dec] ---- *)
+
+Definition int64 (e : Z) : Prop := -9223372036854775808 <= e <= 9223372036854775807.
+Definition int64b (e : Z) : bool := (-9223372036854775808 <=? e) && (e <=? 9223372036854775807).
+
+(* digits of n >= 0, most significant first, in front of [acc]; [fuel] bounds
+   the number of digit positions (n < 2^fuel is enough: Proofs10.puint_udigits) *)
+Fixpoint udigits (fuel : nat) (n : Z) (acc : str) : str :=
   match fuel with
   | O => acc
-  | S f => if n <? 10 then (48 + n) :: acc else digits f (n / 10) ((48 + n mod 10) :: acc)
+  | S f => if n <? 10 then (48 + n) :: acc else udigits f (n / 10) ((48 + n mod 10) :: acc)
   end.
-Definition dec10 (e : Z) : str := digits 40 e [].
-Definition undec10 (s : str) : option Z :=
+
+(* fuel = number of BITS of n (64 at most for an int64; never a measure of the
+   value itself) *)
+Definition udec (n : Z) : str := udigits (S (Z.to_nat (Z.log2 n))) n [].
+
+(* strconv.FormatInt(e, 10) = fmt.Sprintf("%d", e): '-' and the digits of |e| *)
+Definition dec10 (e : Z) : str := if e <? 0 then 45 :: udec (- e) else udec e.
+
+(* strconv.ParseInt(s, 10, 64) (lim = true) with the class of its error;
+   lim = false: the same reading without any range check (ideal integers) *)
+Inductive pres := POk (z : Z) | PSyntax | PRange.
+
+Definition isdigit (c : Z) : bool := (48 <=? c) && (c <=? 57).
+Definition maxu64 : Z := 18446744073709551615.
+Definition cut63 : Z := 9223372036854775808.
+
+(* ParseUint's loop: per byte, first the syntax check, then the overflow check
+   (n >= cutoff || n*10 + d wraps or exceeds maxVal  <->  10*n + d > 2^64-1) *)
+Fixpoint puint (lim : bool) (acc : Z) (s : str) : pres :=
   match s with
-  | [] => None
-  | _ => fold_left (fun a c => match a with
-                               | Some x => if (48 <=? c) && (c <=? 57) then Some (10 * x + (c - 48)) else None
-                               | None => None
-                               end) s (Some 0)
+  | [] => POk acc
+  | c :: t =>
+    if isdigit c then
+      if lim && (maxu64 <? 10 * acc + (c - 48)) then PRange
+      else puint lim (10 * acc + (c - 48)) t
+    else PSyntax
   end.
+
+(* after the sign: ParseUint's empty check and loop, then ParseInt's cutoff *)
+Definition pbody (lim neg : bool) (body : str) : pres :=
+  match body with
+  | [] => PSyntax
+  | _ =>
+    match puint lim 0 body with
+    | POk un =>
+      if lim && (if neg then cut63 <? un else cut63 <=? un) then PRange
+      else POk (if neg then - un else un)
+    | r => r
+    end
+  end.
+
+Definition parse10 (lim : bool) (s : str) : pres :=
+  match s with
+  | [] => PSyntax
+  | c :: t =>
+    if c =? 45 then pbody lim true t
+    else if c =? 43 then pbody lim false t
+    else pbody lim false s
+  end.
+
+Definition undec10 (s : str) : option Z :=
+  match parse10 true s with POk z => Some z | _ => None end.
+Definition undecZ (s : str) : option Z :=
+  match parse10 false s with POk z => Some z | _ => None end.
+
+(* suite [dec]: Go's fmt.Sprintf("%d", e) (when the case carries an e) and
+   strconv.ParseInt(s, 10, 64) (value or error class) against dec10 / parse10 *)
+Fixpoint str_eqb (a b : str) : bool :=
+  match a, b with
+  | [], [] => true
+  | x :: a', y :: b' => (x =? y) && str_eqb a' b'
+  | _, _ => false
+  end.
+Definition pres_eqb (a b : pres) : bool :=
+  match a, b with
+  | POk x, POk y => x =? y
+  | PSyntax, PSyntax => true
+  | PRange, PRange => true
+  | _, _ => false
+  end.
+Record case_dec := mkCD { cd_e : option Z; cd_s : str; cd_res : pres }.
+Definition run_dec (k : case_dec) : option (option str * pres) :=
+  let f := match cd_e k with Some e => Some (dec10 e) | None => None end in
+  let r := parse10 true (cd_s k) in
+  if match f with Some s => str_eqb s (cd_s k) | None => true end && pres_eqb r (cd_res k)
+  then None else Some (f, r).
 
 (* a (degenerate, one-code) rendering that satisfies [dec_ok] for every Z: the
    hypothesis is consistent *)
